@@ -386,6 +386,10 @@ func (p *Parser) parseGroupedExpression() ast.Node {
 		p.nextToken()
 		return p.parseLambdaMulti(nil)
 	}
+	if p.curTokenIs(token.RPAREN) && p.peekTokenIs(token.EOL) { // "()" ends the line: the => of the lambda is yet to come.
+		p.continuationNeeded = true
+		return nil
+	}
 	exp := p.parseExpression(ast.LOWEST)
 	log.Debugf("parseGroupedExpression: %#v", exp)
 	if p.peekTokenIs(token.LAMBDA) { // (a) => { ... } case
